@@ -19,7 +19,7 @@ class C13(InterpProp):
     clock_mover = True
 
     def knobs(self, rnd, tier):
-        return gen.Knobs(time_preds=0.75, p_guard=0.8, p_internal=0.3, p_eventless=0.3,
+        return gen.Knobs(time_preds=0.75, p_guard=0.8, p_internal=0.3, p_eventless=0.3, clock_moves=0.2,
                          max_states=rnd.choice([5, 9, 13]), trans_per_owner=2.0)
 
     def make_ops(self, rnd, knobs, sc):
